@@ -160,7 +160,7 @@ fam('c08_provided', 'g_alg', [(2, 2, k) for k in _light] + [(1, 1, k) for k in _
     unwind=lambda c: max(c[0], c[1]) + 2)
 fam('c08_sub', 'g_alg', Q8[:6], D8)
 fam('c08_difference_ref', 'g_alg', [(1, 1), (2, 2), (3, 2), (2, 3)], [(3, 3), (4, 2)], unwind=lambda c: 9)
-fam('c08_difference_ref_slices', 'g_alg', [(1, 1), (2, 1), (2, 2)], [], unwind=lambda c: 6)   # (2, 3): 19 min, (3, 2): > 20 min -> not registered
+fam('c08_difference_ref_slices', 'g_alg', [(1, 1), (2, 1)], [], unwind=lambda c: 6)   # (2, 2): > 7 min, (2, 3): 19 min, (3, 2): > 20 min -> not registered
 LIBC_BOUNDS['c08_difference_ref_slices'] = 5   # slices of at most 3 bytes
 LIBC_BOUNDS['c01_lookup_unsized'] = 5
 fam('c14_map c14_set', 'g_alg', Q8 + [(2, 3)], [(4, 4), (4, 1), (1, 4), (5, 5)])
